@@ -871,10 +871,8 @@ func convertUpdateTypedValue(_ context.Context, upd *sdcpb.Update, scRsp *sdcpb.
 		}
 		// regular leaf list
 		switch upd.GetValue().Value.(type) {
-		case *sdcpb.TypedValue_LeaflistVal:
-			return upd, nil
-		case *sdcpb.TypedValue_JsonVal, *sdcpb.TypedValue_JsonIetfVal:
-			// the leaf-list reported as a JSON array
+		case *sdcpb.TypedValue_LeaflistVal, *sdcpb.TypedValue_JsonVal, *sdcpb.TypedValue_JsonIetfVal:
+			// the leaf-list reported as a whole (its elements still need their type) or as a JSON array
 			ctv, err := TypedValueToYANGType(upd.GetValue(), scRsp.GetSchema())
 			if err != nil {
 				return nil, err
